@@ -282,7 +282,6 @@ def check_heads_closed(ctx, F):
     pubs = [f['name'] for f in a['variants'][0]['fields'] if f['vis'] == 'pub']
     key = 'R7/heads-private'
     (ctx.bad if pubs else ctx.ok)('R7', 'ChainCoderHeads fields are private', HEADS, 'pub fields: %s' % pubs if pubs else 'compressed, remainders are private', key=key)
-    allowed = ('new', 'increase_precision_unchecked', 'decrease_precision_unchecked')
     sites = {}
     for b in F.bodies:
         if b.promoted is not None or b.derived or '::tests::' in b.defpath:
@@ -293,9 +292,20 @@ def check_heads_closed(ctx, F):
             for s in bl['stmts']:
                 if s['k'] == 'assign' and s['rv']['k'] == 'agg' and s['rv'].get('adt') == HEADS:
                     sites[b.defpath] = b
+    def accepted(b, depth=0):
+        # the constructor (an associated fn of the heads type), the unsafe precision changers (their callers carry the
+        # obligation, checked by the precondition-entailment rule), or a private helper that only such functions call
+        if not b.file.endswith('stream/chain.rs'):
+            return False
+        if b.self_adt == HEADS or (b.self_adt == CHAIN and b.unsafe):
+            return True
+        if depth == 0 and b.vis != 'pub' and b.self_adt == CHAIN:
+            callers = [x for x in F.bodies if x.promoted is None and '::tests::' not in x.defpath and any((callee(t) or {}).get('def') == b.defpath for _, t in x.calls())]
+            return bool(callers) and all(accepted(x, 1) for x in callers)
+        return False
     for dp, b in sorted(sites.items()):
         key = 'R7/heads-literal/' + dp
-        if b.name in allowed and b.file.endswith('stream/chain.rs'):
+        if accepted(b):
             ctx.ok('R7', 'ChainCoderHeads is built only by its constructor and the precision changers', dp, 'literal site (inventory)', key=key)
         else:
             ctx.unresolved('R7', 'ChainCoderHeads is built only by its constructor and the precision changers', dp, 'new literal site of ChainCoderHeads: the head invariants are not re-established by a known routine', key=key, loc=rules.loc(b))
